@@ -157,6 +157,7 @@ inductive Ev
   | iter                        -- the consumer called `iter_bytes()` and starts pulling
   | done                        -- the iterator was exhausted
   | raised (e : Exc)
+  | eqSelf (b : Bool)           -- `c == c` returned `b` (second part of the log only)
 deriving Repr
 
 structure StreamIn where
@@ -169,6 +170,7 @@ structure StreamIn where
   bufferNow : Bool
   iters : Nat                   -- how many times `iter_bytes()` is consumed afterwards
   caps : List Nat := []         -- short-read plan of the stream (restarts with every evaluation of the reader)
+  eqs : Nat := 0                -- how many times `c == c` is evaluated after the consumptions
 deriving Repr
 
 def seekEvs (i : StreamIn) : List Ev :=
@@ -215,6 +217,36 @@ def streamModel (i : StreamIn) : List Ev :=
   else
     let s' : Stream := { s with data := i.data1.getD i.data0 }
     Ev.made :: lazyIters i i.iters s'
+
+/-- where `k` consumptions of a lazy content leave the stream -/
+def lazyEnd (i : StreamIn) : Nat → Stream → Stream
+  | 0, s => s
+  | k + 1, s => lazyEnd i k (readAll i s true).2.2
+
+/-- `c == c` on a lazy content, `k` times: `Content.__eq__` evaluates `iter_bytes()` of the left and then of the
+right operand (each a fresh call of the reader: seek again, read to the end) and compares the joined bytes.  The
+log has the stream's own events and the answer; an evaluation that raises ends that comparison. -/
+def lazyEqs (i : StreamIn) : Nat → Stream → List Ev
+  | 0, _ => []
+  | k + 1, s =>
+    let r1 := readAll i s false
+    match r1.2.1 with
+    | none => r1.1 ++ lazyEqs i k r1.2.2
+    | some a =>
+      let r2 := readAll i r1.2.2 false
+      match r2.2.1 with
+      | none => r1.1 ++ r2.1 ++ lazyEqs i k r2.2.2
+      | some b => r1.1 ++ r2.1 ++ [Ev.eqSelf (a.flatten == b.flatten)] ++ lazyEqs i k r2.2.2
+
+/-- second part of the scenario: `c == c`, `eqs` times, after the consumptions (nothing when the constructor raised) -/
+def streamEqModel (i : StreamIn) : List Ev :=
+  let s : Stream := { data := i.data0, pos := i.pos0 }
+  if i.bufferNow then
+    match (readAll i s false).2.1 with
+    | none => []
+    | some cs => List.replicate i.eqs (Ev.eqSelf (cs.flatten == cs.flatten))
+  else
+    lazyEqs i i.eqs (lazyEnd i i.iters { s with data := i.data1.getD i.data0 })
 
 /-! ## Content types -/
 
@@ -406,7 +438,7 @@ inductive Trace
   /-- `as_text()` (none = raised) with its exception; `iter_text()` pieces (none = raised) with its exception; and the
   whole-string decode of the joined bytes -/
   | decode (astext : Option Text) (aerr : Option Exc) (pieces : Option (List Text)) (err : Option Exc) (whole : Option Text)
-  | stream (evs : List Ev)
+  | stream (evs eqEvs : List Ev)
   | ctype (rendered : Text) (parsed : Parsed)
   | ctypeSeq (rs : List (Text × Parsed))
   | copy (obs : List CopyObs)
@@ -491,7 +523,7 @@ def model : Input → Trace
   | .text s => .text [utf8Encode s] true (asText utf8 [utf8Encode s])
   | .json d => .json [utf8Encode d] true true
   | .decode isText cs chunks whole => decodeModel isText cs chunks whole
-  | .stream i => .stream (streamModel i)
+  | .stream i => .stream (streamModel i) (streamEqModel i)
   | .ctype ct => ctypeModel ct
   | .ctypeSeq cts => .ctypeSeq (cts.map ctypePair)        -- no state: one answer per content type
   | .copy init ops => .copy (copyRun ⟨init, []⟩ ops)
